@@ -40,9 +40,49 @@ def bounds(tier, seed):
             'module_name_slice': 'index % 8 == seed % 8' if q else 'all'}
 
 
+CUSTOM = []
+
+
+def customise():
+    """what applications legitimately do: subclasses of the shipped loaders with their own constructors, multi-constructors
+    and resolvers (registered in both orders), module-level yaml.add_* and a YAMLObject class.  None of it may become
+    visible through the six safe entry points; every tag registered here is enumerated by the 'registered' job."""
+    import vf_canary
+    if CUSTOM:
+        return
+
+    def call_it(loader, node):
+        return vf_canary.f()
+
+    def call_multi(loader, suffix, node):
+        return vf_canary.f(suffix)
+    for i, Base in enumerate((yaml.SafeLoader, yaml.CSafeLoader, yaml.BaseLoader, yaml.FullLoader, yaml.Loader)):
+        A = type('CustomA%d' % i, (Base,), {})
+        A.add_multi_constructor('!ca%d:' % i, call_multi)          # multi first, then exact
+        A.add_constructor('!pa%d' % i, call_it)
+        B = type('CustomB%d' % i, (Base,), {})
+        B.add_constructor('!pb%d' % i, call_it)                    # exact first, then multi
+        B.add_multi_constructor('!cb%d:' % i, call_multi)
+        B.add_implicit_resolver('!pb%d' % i, __import__('re').compile(r'^zz%d$' % i), ['z'])
+        C = type('CustomC%d' % i, (A,), {})
+        C.add_constructor('!pc%d' % i, call_it)
+        C.add_multi_constructor(None, call_multi) if i == 0 else None
+        CUSTOM.extend([A, B, C])
+    yaml.add_constructor('!modlevel', call_it)
+    yaml.add_multi_constructor('!modmulti:', call_multi)
+
+    class YObj(yaml.YAMLObject):
+        yaml_tag = '!yobj'
+
+        def __init__(self):
+            vf_canary.f()
+    CUSTOM.append(YObj)
+
+
 def worker_init():
     global MON, NAMES
     import vf_canary
+    customise()
     MON = secmon.Monitor(harness_files=[__file__])
     # warm every lazy import / compiled pattern and learn the benign stdlib call set from core-tag documents only
     corpus = []
@@ -146,7 +186,7 @@ def plan(tier, seed):
     q = tier == 'quick'
     jobs = [('struct', i) for i in range(len(G.structural_tags()))]
     jobs += [('canary', i, k, 8) for i in range(len(G.PY_PREFIX)) for k in range(8)]
-    jobs += [('registered',)]
+    jobs += [('registered', k, 8) for k in range(8)]
     NS = 64
     for k in range(NS):
         if not q or k % 8 == seed % 8:
@@ -179,7 +219,9 @@ def run_job(job, T):
         T.sample('canary-names', {'doc': doc})
     elif kind == 'registered':
         n = 0
-        for tag, multi in G.registered_tags(yaml.constructor.BaseConstructor):
+        for ti, (tag, multi) in enumerate(G.registered_tags(yaml.constructor.BaseConstructor)):
+            if ti % job[2] != job[1]:
+                continue
             full = tag + ('vf_canary.f' if multi else '')
             short = '!!' + full[len(G.Y):] if full.startswith(G.Y) else '!<%s>' % full
             tk = kind_of_tag(short)
@@ -188,6 +230,8 @@ def run_job(job, T):
                     doc = G.in_context(c, '!<%s> %s' % (full, ktext))
                     check_doc(T, 'registered-tags', {'doc': doc, 'tag': short, 'kind': kn, 'context': c}, doc, tk, profile=True, prime=PRIME_FULL)
                     n += 1
+        for text in [] if job[1] else ['zz0', 'zz1', 'zz3', '- zz2\n- !pa0 x\n- !ca0:s y\n', '!yobj {}', '!modlevel x', '!modmulti:s x', '!anything-at-all x', '!pc0 x']:
+            check_doc(T, 'registered-tags', {'doc': text, 'tag': 'custom', 'kind': 'probe', 'context': 'root'}, text, 'noncore' if '!' in text else 'core', profile=True, prime=PRIME_FULL)
         T.count('registered_tags_enumerated', len(G.registered_tags(yaml.constructor.BaseConstructor)))
         T.sample('registered-tags', {'doc': doc})
     elif kind == 'names':
